@@ -422,7 +422,7 @@ func (l *TCPListener) AcceptTCP() (*TCPConn, error) {
 			return nil, opErr("accept", "tcp", l.addr, net.ErrClosed)
 		}
 		if len(l.backlog) > 0 {
-			if l.w.AcceptErr > 0 && simrt.S.Fault.Permille(l.w.AcceptErr) {
+			if !l.Foreign && l.w.AcceptErr > 0 && simrt.S.Fault.Permille(l.w.AcceptErr) {
 				simrt.Fault("accept_transient_error")
 				return nil, opErr("accept", "tcp", l.addr, syscall.ECONNABORTED)
 			}
